@@ -13,7 +13,7 @@ BUDGET = {"quick": 45, "thorough": 780}
 RULE = ("worlds with max_recompute in {None,1,2,3,7}, idle stretches, sessions finishing early, all parties; at some "
         "calls the party scribbles over every object it was handed; non-trivial = >=1 timer-only invocation and >=1 "
         "mutation fault; distinct = per-period history signature")
-PROBES = ["remaining_amp_periods_checked", "aware_start", "aware_start_run_crosses_dst", "timer_only_call", "mutation", "session_finished_early_hidden", "third_period_pilots", "resumed", "paired_run",
+PROBES = ["stochastic_network_world", "swapped_in_session_seen", "remaining_amp_periods_checked", "aware_start", "aware_start_run_crosses_dst", "timer_only_call", "mutation", "session_finished_early_hidden", "third_period_pilots", "resumed", "paired_run",
           "arrival_this_period_seen", "departure_this_period_hidden", "infra_seen_after_reconfig", "custom_event_with_builtin", "mutate_then_crash", "scheduler_swapped_in_before_run"]
 FAULT_DIMENSION = ("party mutates handed SessionInfo / InfrastructureInfo / Constraint objects; scheduler crash + rerun; "
                    "operator changes a constraint limit between two periods (the scheduler must see the new, true limits)")
@@ -26,7 +26,49 @@ PROFILE = world.profile(zero_demand=0.05, aware_start=0.25, reconfig=0.25, custo
                         evse_kinds={"cont": 4, "dead": 2, "finite": 3})
 
 
+P_STOCH = world.profile(net="stochastic", stations=(1, 4), horizon=(4, 24), hot=0.5, party={"uncontrolled": 2, "greedy": 2, "scripted": 2},
+                        evse_kinds={"cont": 3, "finite": 2}, noise=0.0, stoch_early=0.3, sessions_cap=12, faults={"crash": 0.2}, resume_modes=["rerun"])
+
+
+def check_stochastic(sc):
+    """On the contributed StochasticNetwork a session's station is decided at run time (waiting vehicles are swapped into freed
+    spaces), so the per-session clauses are judged against what was observed: the previous period's actual rate of a session is
+    what was recorded, in that period, at the station the session occupied while it charged - 0 if it was not connected."""
+    tr = driver.run_world(sc, observe=1)
+    out = base_outcome(tr)
+    out.probe("stochastic_network_world")
+    if not completion(tr, out, "C05", required=False):
+        return out
+    by_t = {p_["t"]: p_ for p_ in tr.periods}
+    for c in tr.calls:
+        if not c.get("completed") or "last_rate" not in c:
+            continue
+        t = c["t"]
+        if c["now"] != t:
+            out.add("C05/current_time", "call in period %d saw current_time %r" % (t, c["now"]))
+        prev = by_t.get(t - 1)
+        truth = {}
+        if prev is not None and prev.get("pre") is not None and prev["rates"] is not None:
+            for i_, (st_, v_) in enumerate(prev["pre"]["st"].items()):
+                if v_[0] is not None:
+                    truth[v_[0]] = prev["rates"][i_]
+        for x in c["sessions"]:
+            sid = x["session_id"]
+            want = truth.get(sid, 0.0)
+            got = c["last_rate"].get(sid)
+            out.probe("swapped_in_session_seen" if (sid not in truth and prev is not None and x["arrival"] < t) else "session_seen")
+            if got is None or not close(got, want):
+                out.add("C05/last_actual_rate", "t=%d session %s (now at %s): interface says it drew %r A in period %d, recorded for it: %r A%s"
+                        % (t, sid, x["station_id"], got, t - 1, want, "" if sid in truth else " (it was not connected in that period)"))
+                return out
+    return out
+
+
 def gen(rs, tier):
+    if rs % 11 == 0:
+        sc = world.gen_world(rs, P_STOCH)
+        sc["party"]["subset_mode"] = "all"
+        return sc
     sc = world.gen_world(rs, PROFILE)
     if sc["party"]["kind"] in ("greedy", "rr", "uncontrolled") and rs % 3 == 0:
         # real algorithms with a slower timer (their own default is 1)
@@ -46,6 +88,8 @@ def expected_allowable(e):
 
 
 def check(sc):
+    if sc["network"]["kind"] == "stochastic":
+        return check_stochastic(sc)
     tr = driver.run_world(sc, observe=2)
     out = base_outcome(tr)
     ok = completion(tr, out, "C05", required=False)
